@@ -479,9 +479,17 @@ class LoopSummary:
                 if ins.op != 'store':
                     continue
                 g = fn.defs.get(ins.ops[1].v) if ins.ops[1].k == 'reg' else None
-                if g is not None and g.op == 'gep' and g.ops[0].k == 'reg' and any(pn == g.ops[0].v for pt, pn in fn.params) and all(o.k == 'int' for o in g.ops[1:]):
+                root = g.ops[0] if g is not None and g.op == 'gep' else None
+                for _ in range(4):
+                    # the container arrives as void * in buf.c: look through the cast to the parameter
+                    rd = fn.defs.get(root.v) if root is not None and root.k == 'reg' else None
+                    if rd is not None and rd.op == 'bitcast':
+                        root = rd.ops[0]
+                    else:
+                        break
+                if g is not None and g.op == 'gep' and root.k == 'reg' and any(pn == root.v for pt, pn in fn.params) and all(o.k == 'int' for o in g.ops[1:]):
                     try:
-                        p = it.gep(it.val(g.ops[0], s, fn), g.x['bt'], [(o.ty, it.val(o, s, fn)) for o in g.ops[1:]], fn.module.structs)
+                        p = it.gep(it.val(root, s, fn), g.x['bt'], [(o.ty, it.val(o, s, fn)) for o in g.ops[1:]], fn.module.structs)
                     except Exception:
                         return None
                     key = (p.base, it.dom.off_key(p.off))
